@@ -26,6 +26,19 @@ def closure_calls_recover(p, fid, depth=0):
     return False
 
 
+def closure_reaches(p, fid, suffix, depth=0):
+    f = p.fns.get(fid)
+    if f is None or depth > 3:
+        return False
+    for c in f.calls():
+        if c.name.endswith(suffix):
+            return True
+        for x in c.refs:
+            if closure_reaches(p, x, suffix, depth + 1):
+                return True
+    return False
+
+
 def run(ctx):
     p, r = ctx.p, ctx.r
     A = r.rule("R03-a", "for format_expr, format_stmt and rewrite_static every write of the return value is an error, the "
@@ -110,6 +123,29 @@ def run(ctx):
             r.violation(A, "%s: no return passes recover_comment_removed" % short(name),
                         "the comment safety net of this rewriter is gone", ["%s:%d" % (f.file, f.line)])
     r.floor(A, len(ANCHORS), 3, "anchored rewriters")
+    # macro calls in statement / item position are pushed by FmtVisitor::visit_mac
+    vm = p.named("visit_mac", within="visitor::FmtVisitor")
+    if vm is None:
+        r.undecidable(A, "FmtVisitor::visit_mac not found")
+    else:
+        pushes = [c for c in vm.calls() if c.name.endswith("::push_rewrite") or c.name.endswith("::push_rewrite_inner")]
+        n_ok = 0
+        for c in pushes:
+            if len(c.args) < 3 or c.args[2][0] == "k":
+                continue
+            srcs = vm.derived_from(c.args[2][1][0])["calls"]
+            rewriting = any(x.name.endswith("macros::rewrite_macro") or any("rewrite_macro" in y or closure_reaches(p, y, "macros::rewrite_macro")
+                                                                         for y in x.refs) for x in srcs)
+            if not rewriting:
+                continue
+            cov = any(x.name == RECOVER or any(closure_calls_recover(p, y) for y in x.refs) for x in srcs)
+            r.instance(A, "visitor::visit_mac: pushes the rewritten macro call", "ok" if cov else "violation", c.loc())
+            if cov:
+                n_ok += 1
+            else:
+                r.violation(A, "visit_mac: rewritten macro call bypasses recover_comment_removed",
+                            "a macro call in statement or item position is replaced by its rewrite without the comment safety "
+                            "net: `vec![0u8 /* zero */; 3];` loses its comment", [c.loc()])
 
     B = r.rule("R03-b", "decision table of recover_comment_removed: returns the source snippet iff snippet ≠ new ∧ "
                         "changed_comment_content(snippet, new); appends a LostComment error on that path iff "
